@@ -703,6 +703,31 @@ class _ParseFunction(_nt('_ParseFunction', 'func, args, kwargs')):
         except TypeError:
             return hash((self.func, len(self.args), len(self.kwargs)))
 
+    def __eq__(self, other):
+        # This is the memo key of a template call. Python says 1 == True == 1.0,
+        # but calls with such arguments must not share a memo entry.
+        return (
+            isinstance(other, _ParseFunction)
+            and tuple.__eq__(self, other)
+            and _same_types(self.args, other.args)
+            and _same_types(self.kwargs, other.kwargs)
+        )
+
+    def __ne__(self, other):
+        return not self == other
+
+
+def _same_types(a, b):
+    if type(a) is not type(b):
+        return False
+    if isinstance(a, (list, tuple)):
+        return len(a) == len(b) and all(map(_same_types, a, b))
+    if isinstance(a, dict):
+        return len(a) == len(b) and all(
+            k in b and _same_types(v, b[k]) for k, v in a.items()
+        )
+    return True
+
 
 class _StringLiteral(str):
     def __call__(self, ${ctx}_text, _pos):
